@@ -82,8 +82,8 @@ check(
     "C14",
     ["TableLayout", "TableLayoutTrace"],
     "TLA+ model of table layout (A: CellWrapper.fit with exact round(), exact textwrap model, BorderUtil drawing; P: succeeds / fits / rectangle / aligned columns / text kept / table unchanged over the drawn text) checked by TLC; every behaviour replayed on Table.render; random tables decided by TableLayoutTrace.tla",
-    "TLC enumerates all tables of the bounded family (1-2 columns x 1-2 rows, cells of 0-3 words with lengths {1,3,7..}, header or not, 4 border styles, available widths nCols..12; thorough adds 3 columns) through the step machine of CellWrapper.fit and checks the six P-invariants on the drawn text; the pinned variant (Repaired = FALSE) must produce the width-0 failure; Table.render reproduces the model's output character for character on every one of the 28 112 (quick) / 352 233 (thorough) behaviours; random tables up to 6x6 with cells up to 1500 characters, widths 20..200, indentation 0..8, ANSI/plain are decided by TLC on the rendered lines.",
-    "Trusted: TLC, the line/cell projection of the driver (reads Table._rows/_header_row for 'unchanged'). Known finding (open): style-tagged cells that must be wrapped are cut by tag-unaware textwrap. Hyphenated words, tabs, embedded newlines, East-Asian widths outside the model.",
+    "TLC renders every table of bounded families through the step machine of CellWrapper.fit (short/long split, proportional distribution with exact rounding, exact textwrap model, BorderUtil drawing) and checks P.succeeds, P.fits, P.rectangle, P.aligned and P.textkept on the drawn text. The families cover 1-3 columns, 1-3 rows, cells of 0-4 words, header or not, the four predefined styles, every available width from one character per column upwards, identical values repeated across rows and columns, and alignments set through set_column_alignment in every order. The pinned variant (Repaired = FALSE) must produce the width-0 failure. Every behaviour is replayed on the real Table.render, plain and ANSI, ascii boxes also as solid; routes: rows as lists and tuples, Table() and Table(style), add_row and add_rows, indentation positional or by keyword; the written text is compared character for character (30 220 behaviours quick, 460 323 thorough). A second model, TableObject, covers the table as an object: every sequence of 4 calls (set_header_row, add_row, add_rows, set_row, set_rows, set_column_alignment on its style, render, incl. rejected calls) is run on one real Table with one re-used plain and one re-used ANSI I/O, successive renders alternating narrow and wide terminals, indentations and formatters; every render is decided by TLC against the rows and header the model holds at that moment, and the table and the caller's own row objects must be left unchanged. Random tables up to 6x6 with cells up to 1 500 characters (blank-only cells, embedded line feeds, tagged words, widths 20-200, indentation 0-8) and random histories of 3-13 calls are decided by TLC on the recorded output.",
+    "Trusted: TLC; the driver's character projection (a pool of width-1 letters mapped to text classes, rules to codes, escape sequences removed); reading Table._rows / _header_row and the caller's lists for 'unchanged'. Open known finding: a style-tagged cell that has to be wrapped is cut by tag-unaware textwrap. Outside: hyphenated words, tabs, control characters other than LF inside cells (written raw by the library), East-Asian widths, non-string cells and alignments for columns the table does not have (caller errors), the geometry of customised styles (only the four predefined geometries are known to the P-layer), BorderUtil and CellWrapper called directly. For borderless styles a text repeated in several columns can only be counted, not attributed to a column.",
     "DESIGN.md#C14",
 )
 check(
@@ -114,8 +114,8 @@ check(
     "C17",
     ["RunHistory", "Styles", "RunHistoryTrace"],
     "TLA+ models of what survives inside the process: (a) RunHistory - the per-command leniency override across runs of one application (SameAsFresh, NoResidue; the pinned variant must violate); (b) Styles - the heap of shared BorderStyle prototypes / TableStyle objects and the trace snippet cache (NoAliasing, RenderPure); TLC-enumerated run sequences and style histories replayed on the real objects and decided by RunHistoryTrace.tla / StylesTrace.tla against fresh applications / a fresh process",
-    "(a) every sequence of 2 (quick) / 3 (thorough) line kinds out of 20 (valid, by alias, surplus arguments, unknown option, help X, X --help, failing help requests, version, undefined command, empty line) is explored on the model and run on ONE real ConsoleApplication, each run compared by TLC with a freshly built application (status, stdout, stderr, handler calls); 150/3000 random sequences of 2-6 lines incl. lines outside the pool. (b) all orders of making / customising the predefined table styles (<= 4 operations) and repeated renders of tables, help pages, paragraphs, name/version and error traces at each verbosity and UTF-8 setting, each compared with a reference rendered in a truly fresh process.",
-    "Trusted: TLC, interning of outputs (equal ids <=> equal texts), the fresh-process reference server of c17_styles. Same process and terminal width for shared and fresh runs; every run gets a new StringArgs / ArgvArgs object (re-using one RawArgs object is outside the statement), the caller's argv list object is handed in again whenever its line comes again. BlockLayout re-rendered directly is not counted as a component.",
+    "(a) every sequence of 2 (quick) / 3 (thorough) line kinds out of 20 (valid, by alias, surplus arguments, unknown option, help X, X --help, failing help requests, version, undefined command, empty line) is explored on the model and run on ONE real ConsoleApplication, each run compared by TLC with a freshly built application (status, stdout, stderr, handler calls); 150/3000 random sequences of 2-6 lines incl. lines outside the pool. (b) TLC explores the heap model of TableStyle / BorderStyle (lazily created shared prototypes, the factories that overwrite them) over every sequence of 3 operations with the full customisation menu (4 factories, 21 string-valued attributes incl. cell, header and rule styles, set_column_alignment on columns 0-2 in any order, list and default assignment) and of 4 with a reduced one, a further family assigning tagged Style objects whose tags collide (NoAliasing), every pair of renders of 12 component kinds (table, paragraph, paragraph on a formatter that redefines a stock tag, labeled paragraph, a re-used LabelAlignment and BlockLayout, name/version, empty line, application help, command help, two error traces) on 9 I/Os varying UTF-8, ANSI, verbosity, width and indentation, and every triple of renders of one re-used LabelAlignment / BlockLayout at changing indentations (RenderPure); the pinned variants must violate both invariants. Every behaviour is replayed on the real classes with I/Os and formatters re-used within a behaviour; StylesTrace decides P.noalias (an equal own history shows an equal table, also against the history replayed alone in a fresh process; no factory or setter may raise) and P.rerender (equal (component, I/O) shows equal text, equal to what a fresh process shows), also on random mixed sequences of up to 40 operations.",
+    "Trusted: TLC, interning of outputs (equal ids <=> equal texts), the fresh-process reference server of c17_styles. Same process and terminal width for shared and fresh runs; every run gets a new StringArgs / ArgvArgs object (re-using one RawArgs object is outside the statement), the caller's argv list object is handed in again whenever its line comes again. A BlockLayout rendered again without being re-filled shows nothing by design and is not judged (re-filled with the same elements it is). Outside: the caller sharing one alignment list or Style object between styles by assignment; a source file changed between two renders of an error trace; equivalence of the factories with hand-built styles.",
     "DESIGN.md#C17",
 )
 check(
